@@ -63,16 +63,12 @@ class Formula(BooleanLogics.Formula):
                 if isinstance(phi, str):
                     self._subformula.append(Lang.AtomicProposition(phi))
                 else:
-                    if not isinstance(phi, FormulaClass):
-                        if (isinstance(phi, Lang.Formula) or
-                                not isinstance(phi, Formula)):
-
-                            raise TypeError(err_msg(phi))
-
+                    if (isinstance(phi, Formula) and
+                            sys.modules[phi.__module__] is not Lang):
                         phi = phi.cast_to(Lang)
 
-                        if not isinstance(phi, FormulaClass):
-                            raise TypeError(err_msg(phi))
+                    if not isinstance(phi, FormulaClass):
+                        raise TypeError(err_msg(phi))
 
                     self._subformula.append(phi)
                     self.height = max(self.height, phi.height+1)
